@@ -390,6 +390,11 @@ MISSING_RETURN = [
     ("match statement: one arm lacks the return", "    let u: CU = CU.A { v: a }\n    match u {\n        A(m) => { return m.v }\n        B(m) => { (println m.s) }\n    }\n"),
     ("unsafe block without a return", "    unsafe {\n        (srand a)\n    }\n"),
     ("while true with a break", "    while true {\n        if (> a 0) { break } else { return 1 }\n    }\n"),
+    ("while true whose only break is in the then-branch of an if", "    let mut b: int = a\n    while true {\n        set b (+ b 1)\n        if (> b 3) { break } else {}\n    }\n"),
+    ("while true whose only break is in the else-branch of an if", "    let mut b: int = a\n    while true {\n        set b (+ b 1)\n        if (< b 3) { (println b) } else { break }\n    }\n"),
+    ("while true whose break is in a match arm", "    let u: CU = CU.A { v: a }\n    while true {\n        match u {\n            A(m) => { break }\n            B(m) => { return 1 }\n        }\n    }\n"),
+    ("while true whose break is inside an unsafe block inside an if", "    while true {\n        if (> a 0) { unsafe { break } } else { return 1 }\n    }\n"),
+    ("while with a non-literal condition that returns inside", "    let t: bool = true\n    while t {\n        return 1\n    }\n"),
     ("body ends in an assert", "    assert (> a 0)\n"),
     ("nested function lacks its return", "    fn inner(q: int) -> int {\n        let w: int = q\n        (println w)\n        let v: int = w\n    }\n    return (inner a)\n"),
     ("return only inside a nested function", "    fn inner(q: int) -> int {\n        return q\n    }\n    (println (inner a))\n    let z: int = 1\n"),
@@ -401,6 +406,8 @@ RETURNS_OK = [
     ("match statement whose arms all return", "    let u: CU = CU.A { v: a }\n    match u {\n        A(m) => { return m.v }\n        B(m) => { return 0 }\n    }\n"),
     ("return inside an unsafe block at the end", "    unsafe {\n        (srand a)\n        return 1\n    }\n"),
     ("early return then final return", "    if (> a 5) { return 9 } else {}\n    return a\n"),
+    ("while true whose only break belongs to a nested loop", "    let mut b: int = a\n    while true {\n        for i in (range 0 3) { if (== i 1) { break } else {} }\n        set b (+ b 1)\n        if (> b 3) { return b } else {}\n    }\n"),
+    ("while true with a conditional break followed by a return", "    let mut b: int = a\n    while true {\n        set b (+ b 1)\n        if (> b 3) { break } else {}\n    }\n    return b\n"),
 ]
 
 
